@@ -20,6 +20,9 @@ from widegen import WGen
 from c13_util import *
 import c02 as C02
 
+import threading
+_LOCK = threading.Lock()
+
 WIDE_FEATURES = ["enum", "real", "bits", "strings", "oid", "time", "default", "ext"]     # no SET, no recursion
 
 WITNESS_TEXT = """WIT DEFINITIONS ::= BEGIN
@@ -116,22 +119,35 @@ def run_mod_resume(run, m, lines, name):
             break
         o = o[:len(rest) - 1] if len(o) >= len(rest) else o
         out += o + ["CRASH:%s" % rc]
-        run.count("driver_crash")
-        run.notes.append({"crash": name, "command_line": rest[len(o)][:300], "stderr_tail": err[-600:]})
+        with _LOCK:
+            run.count("driver_crash")
+            run.notes.append({"crash": name, "command_line": rest[len(o)][:300], "stderr_tail": err[-600:]})
         rest = rest[len(o) + 1:]
     return out
+
+
+def _par(fn, n, jobs=8):
+    from concurrent.futures import ThreadPoolExecutor
+    with ThreadPoolExecutor(max_workers=jobs) as ex:
+        return list(ex.map(fn, range(n)))
 
 
 def encode_everywhere(run, variants, mname, values, name):
     """values: list of (type, der).  Returns {syn: [ {build index: output line} per value ]}"""
     res = {s: [dict() for _ in values] for s in SYNS}
-    for vi, var in enumerate(variants):
+
+    def one(vi):
+        var = variants[vi]
         m = var.mods[mname]
         if not m.get("exe"):
-            continue
+            return None
         syns = [s for s in SYNS if not skips(var.opts, s)]
         lines = ["xcode %s der %s %s" % (tn, der, s) for (tn, der) in values for s in syns]
-        out = run_mod_resume(run, m, lines, "%s-enc-%s" % (name, var.label()))
+        return syns, run_mod_resume(run, m, lines, "%s-enc-%s" % (name, var.label()))
+    for vi, r in enumerate(_par(one, len(variants))):
+        if r is None:
+            continue
+        syns, out = r
         i = 0
         for j in range(len(values)):
             for s in syns:
@@ -143,13 +159,19 @@ def encode_everywhere(run, variants, mname, values, name):
 def decode_everywhere(run, variants, mname, items, name):
     """items: list of (type, syn, hex).  Returns [ {build index: output} per item ] of `xcode T syn hex der`"""
     res = [dict() for _ in items]
-    for vi, var in enumerate(variants):
+
+    def one(vi):
+        var = variants[vi]
         m = var.mods[mname]
         if not m.get("exe"):
-            continue
+            return None
         idx = [i for i, (tn, s, h) in enumerate(items) if not skips(var.opts, s)]
         lines = ["xcode %s %s %s der" % (items[i][0], "ber" if items[i][1] == "der" else items[i][1], items[i][2]) for i in idx]
-        out = run_mod_resume(run, m, lines, "%s-dec-%s" % (name, var.label()))
+        return idx, run_mod_resume(run, m, lines, "%s-dec-%s" % (name, var.label()))
+    for vi, r in enumerate(_par(one, len(variants))):
+        if r is None:
+            continue
+        idx, out = r
         for i, o in zip(idx, out):
             res[i][vi] = o
     return res
@@ -188,11 +210,17 @@ def check_module(run, rng, tier, variants, mname, values, classify, layer, model
                     run.violation("oracle:options-change-bytes(%s)" % s,
                                   dict(replay, what="builds of the same module under different representation options emit different %s bytes for the same value" % s))
             ref = outs.get(0)
-            if model_bytes is not None and s in model_bytes and ref is not None:
+            if model_bytes is not None and s in ("der", "uper", "oer") and ref is not None:
                 exp = model_bytes[s][j]
                 expl = ("OK " + exp) if exp != "NONE" else "ENCFAIL"
                 got = ref if not ref.startswith("ENCFAIL") else "ENCFAIL"
-                if got != expl:
+                alt = model_bytes.get(s + "std", [None] * len(values))[j]
+                if got != expl and alt is not None and alt != exp and got == (("OK " + alt) if alt != "NONE" else "ENCFAIL"):
+                    # where the faithful model and its standard reading differ (C02's refuted regions: semi-constrained
+                    # INTEGER, CHOICE index order) the C may be in either state (a `fix:` commit in /repo moves it to the
+                    # standard one before or after the shared model follows); which one is C02's statement, not C13's
+                    run.count("model_layer_uper_in_C02_refuted_region_matches_std")
+                elif got != expl:
                     fid = classify(j, s, "model-differs", groups)
                     if fid:
                         run.known_finding(fid, line)
@@ -260,17 +288,27 @@ def leaf_tie(run, rng, tier, wvariants, model):
     (ii) oracle: native and wide builds give the same answer, except inside the refuted regions."""
     cs = leaf_contents(rng, tier)
     res = {}
-    for vi, var in enumerate(wvariants):
-        m = var.mods["WIT"]
-        if not m.get("exe"):
-            continue
-        wide = "-fwide-types" in var.opts
-        lines = ["xcode %s ber 02%02x%s der" % (tn, len(b), b.hex()) for tn in ("I", "U") for b in cs]
-        mlines = ["nw_xcode %s %s" % ("W" if wide else ("N0" if tn == "I" else "N1"), b.hex()) for tn in ("I", "U") for b in cs]
-        out = run_mod_resume(run, m, lines, "C13-leaf-" + var.label())
+    mcache = {}
+    for kind in ("W", "N"):
+        mlines = ["nw_xcode %s %s" % ("W" if kind == "W" else ("N0" if tn == "I" else "N1"), b.hex()) for tn in ("I", "U") for b in cs]
         rcm, mo, me = run_lines(model, mlines, timeout=600)
         if rcm != 0 or len(mo) != len(mlines):
             raise RuntimeError("model driver failed: %s %s" % (rcm, me))
+        mcache[kind] = (mlines, mo)
+    lines = ["xcode %s ber 02%02x%s der" % (tn, len(b), b.hex()) for tn in ("I", "U") for b in cs]
+
+    def one(vi):
+        m = wvariants[vi].mods["WIT"]
+        if not m.get("exe"):
+            return None
+        return run_mod_resume(run, m, lines, "C13-leaf-" + wvariants[vi].label())
+    for vi, out in enumerate(_par(one, len(wvariants))):
+        if out is None:
+            continue
+        var = wvariants[vi]
+        m = var.mods["WIT"]
+        wide = "-fwide-types" in var.opts
+        mlines, mo = mcache["W" if wide else "N"]
         for l, o, ml, mout in zip(lines, out, mlines, mo):
             run.case(l + " @" + ("wide" if wide else "native"))
             run.count("leaf_%s_%s" % ("wide" if wide else "native", l.split()[1]))
@@ -359,7 +397,7 @@ def main(tier):
         if quick and len(cs) > 60:
             cs = [cs[i] for i in sorted(rng.shuffle(list(range(len(cs))))[:60])]
         values = [(c["tn"], c["der"]) for c in cs]
-        mb = {"der": [c["der"] for c in cs], "uper": [c["uper"] for c in cs], "oer": [c["oer"] for c in cs]}
+        mb = {"der": [c["der"] for c in cs], "uper": [c["uper"] for c in cs], "oer": [c["oer"] for c in cs], "uperstd": [c["uperstd"] for c in cs]}
 
         def classify(j, s, kind, detail, m=m, cs=cs):
             c = cs[j]
